@@ -412,7 +412,12 @@ class CallMixin:
         # exceptional exits
         for exc, posts in fn.raises.items():
             q = p.copy()
-            if not fn.pure:
+            # an exit whose contract starts with unchanged(<every field in modifies>) leaves the heap as it is:
+            # no havoc (and no array equalities for the solver to chew on)
+            nochange = bool(posts) and self._covers_modifies(posts[0], fn.modifies)
+            if nochange:
+                posts = posts[1:]
+            elif not fn.pure:
                 self.havoc_for_spec(q, fn.modifies)
             q.old_heaps.append(pre_heap)
             for s in posts:
@@ -434,6 +439,16 @@ class CallMixin:
         if self.feasible(p):
             outs.append((p, res))
         return outs
+
+    def _covers_modifies(self, spec, modifies):
+        if not isinstance(spec, str) or not spec.startswith("unchanged(") or modifies is None:
+            return False
+        try:
+            node = ast.parse(spec, mode="eval").body
+            named = {a.value for a in node.args}
+        except Exception:
+            return False
+        return all(m in named or m == "$alloc" for m in modifies)
 
     def call_opaque_fn(self, p, fn: FnDecl, args, kwargs, node):
         self.assumptions_used.add(f"opaque callee {fn.fqn}: no effect on modelled state, arbitrary result")
